@@ -4,7 +4,7 @@ CONSTANTS
   Containers = {1, 2, 3}
   Nums = {4, 5}
   DevFirstWins = FALSE
-  DropU = {}
+  DropU = {1, 2, 4, 5}
   Emit = FALSE
-INVARIANTS Deterministic LatestWins
+INVARIANTS WitnessFilter
 CHECK_DEADLOCK FALSE
